@@ -473,6 +473,22 @@ def t_conn_cond_choice_dv():
     return g.set_start_nodes({r}), dict(sel=[c1], conn=[cc], src=s, tgt=t, dv=[d, c])
 
 
+def t_dv_linked_interleaved():
+    """two LINKED groups whose members interleave in name order: [DA, DC] and [DB, DD]"""
+    B, N, CN, G, DV, M, CCT = _imp()
+    g = B()
+    r = N('R')
+    a = [N('A0'), N('A1')]
+    da, dc = DV('DA', options=[1, 2, 3]), DV('DC', options=[4, 5, 6])
+    db, dd = DV('DB', bounds=(0., 1.)), DV('DD', bounds=(2., 4.))
+    c1 = g.add_selection_choice('C1', r, a)
+    g.add_edges([(r, da), (r, db), (r, dc), (a[0], dd)])
+    g = g.set_start_nodes({r})
+    g = g.constrain_choices(CCT.LINKED, [da, dc])
+    g = g.constrain_choices(CCT.LINKED, [db, dd])
+    return g, dict(sel=[c1], dv=[da, db, dc, dd], linked=[[da, dc], [db, dd]])
+
+
 def t_dv_linked_late():
     """as dv_linked, but the graph's design-variable nodes are read once before the LINKED constraint is declared"""
     B, N, CN, G, DV, M, CCT = _imp()
@@ -633,7 +649,7 @@ def t_conn_dv():
 
 TEMPLATES = {
     'two_indep': t_two_indep, 'nested': t_nested, 'nested3': t_nested3, 'incompat': t_incompat, 'incompat3': t_incompat3, 'shared_option': t_shared_option, 'forced': t_forced,
-    'dv': t_dv, 'dv_single': t_dv_single, 'dv_or_existence': t_dv_or_existence, 'dv_linked': t_dv_linked, 'dv_linked_late': t_dv_linked_late, 'dv_or_direct': t_dv_or_direct, 'dv_same_name': t_dv_same_name, 'dv_linked3_cond': t_dv_linked3_cond, 'sel_linked': t_sel_linked, 'sel_forced_linked': t_sel_forced_linked,
+    'dv': t_dv, 'dv_single': t_dv_single, 'dv_or_existence': t_dv_or_existence, 'dv_linked': t_dv_linked, 'dv_linked_late': t_dv_linked_late, 'dv_linked_interleaved': t_dv_linked_interleaved, 'dv_or_direct': t_dv_or_direct, 'dv_same_name': t_dv_same_name, 'dv_linked3_cond': t_dv_linked3_cond, 'sel_linked': t_sel_linked, 'sel_forced_linked': t_sel_forced_linked,
     'conn_simple': t_conn_simple, 'conn_cond': t_conn_cond, 'conn_opt_src': t_conn_opt_src,
     'conn_infeasible_scenario': t_conn_infeasible_scenario, 'conn_infeasible_dv': t_conn_infeasible_dv, 'conn_rows_eq_combs': t_conn_rows_eq_combs, 'conn_cond_choice_dv': t_conn_cond_choice_dv, 'conn_parallel_absent': t_conn_parallel_absent, 'conn_group': t_conn_group,
     'conn_group_finite': t_conn_group_finite, 'conn_group_open': t_conn_group_open, 'conn_group_open2': t_conn_group_open2, 'conn_excl': t_conn_excl, 'conn_two': t_conn_two, 'conn_dv': t_conn_dv,
